@@ -1,6 +1,9 @@
 #!/bin/bash
 # usage: run_seeded.sh <patch.diff> <Cxx> [<Cyy> ...] — applies a seeded change to /repo, runs the checks, reverts.
 P=$1; shift
+# holds the lock that checks started with VERIF_BUILD_LOCK=/tmp/verif_repo.lock take for their build phase
+exec 8>/tmp/verif_repo.lock; flock 8
+unset VERIF_BUILD_LOCK
 cd /repo && git diff --quiet || { echo "/repo not clean"; exit 2; }
 git apply "$P" || { git apply -3 "$P" || { echo "PATCH DOES NOT APPLY"; exit 2; }; }
 for c in "$@"; do
